@@ -310,7 +310,7 @@ theorem onRun_ext (k rest c a o out tmo left) (r : List RxCall) (hm : OutMono k)
     onRun k rest c a (ext o r) out tmo left = (onRun k rest c a o out tmo left).ext r := by
   rw [onRun_eq] at h ⊢
   rw [onRun_eq]
-  have hq : NoMis (innerLoop c.env.now 64 { c.dev with wake := none } a o []).out :=
+  have hq : NoMis (innerLoop c.env.now (loopBound a) { c.dev with wake := none } a o []).out :=
     (h.of_subset (onRunTail_mono _ _ _ _ _ _ _ hm)).right
   rw [innerLoop_ext _ _ _ _ _ _ r hq]
   exact onRunTail_ext _ _ _ _ _ _ _ r hk h
